@@ -21,6 +21,14 @@ def check(pid, tier):
     run_fn(pid, ev, violations, machinery, "PayloadEmit", "Payload_Trace", RUNNER, clause_property,
            "payload-case", nontrivial=lambda t: t["obs"]["res"] == "ok")
     ev.cov["rule"] += "; payload part: every case of Payload.tla, non-trivial = accepted payload"
+    # "... numerically the published data ... with the consumer grid's data shape and the mask": links between two
+    # layouts of one geometry (Grid.tla link cases, also cast grids and a second consumer), located values
+    from .check_grid import link_variants
+    run_fn(pid, ev, violations, machinery, "GridEmit", "Grid_Trace", ("grid_run", "run_case"),
+           lambda verdict, case: "C08" if verdict.split("@")[0] in ("transform-located", "transform-shape", "transform-mask",
+                                                                    "grid-conversion-raised") else "C15",
+           "grid-case", emit_env={"WHAT": "link"}, cap=1200 if tier == "quick" else 20000,
+           nontrivial=lambda t: t["obs"].get("res") == "ok", derive=link_variants)
     return finish(pid, ev, out_lines, violations, machinery)
 
 
@@ -29,4 +37,6 @@ def replay(pid, path):
         kind = json.load(f).get("kind")
     if kind == "payload-case":
         return replay_fn(pid, path, "Payload_Trace", RUNNER, clause_property)
+    if kind == "grid-case":
+        return replay_fn(pid, path, "Grid_Trace", ("grid_run", "run_case"), clause_property)
     return check_outbuf.replay(pid, path)
